@@ -10,7 +10,7 @@ Header fields (both request kinds):
 * `aIn`: `u` | `p:<kid>:<mr>:<nr>` (prepacked with that kernel)
 * `bIn`: `u` | `o` (im2col) | `p:<kid>:<mr>:<nr>`
 
-`sched <header>`                         → kernel-call schedule (canonically sorted)
+`sched <betaClass z|o|x> <header>`       → kernel-call schedule (canonically sorted)
 `gemm <header> <alpha> <beta> | A | B | C | bias` → exact result over `Int`
    (`C` = `u` means uninitialised output memory).
 -/
@@ -56,27 +56,34 @@ def errName : GemmErr → String
   | .packedDataKernelMismatch => "err:PackedDataKernelMismatch"
   | .packedDataBlockingMismatch => "err:PackedDataBlockingMismatch"
 
-def showCall (c : Call) : String :=
-  s!"{c.rowTile},{c.colTile},{c.usedRows},{c.usedCols},{c.dStart},{c.dEnd},{b01 c.betaUser},{b01 c.bias}"
+/-- Class of the effective beta: `bc` (class of the caller's beta: `z` zero, `o` one, `x` other)
+if the call uses the caller's beta, else `o`. -/
+def betaClass (bc : String) (betaUser : Bool) : String := if betaUser then bc else "o"
+
+def showCall (bc : String) (c : Call) : String :=
+  s!"{c.rowTile},{c.colTile},{c.usedRows},{c.usedCols},{c.dStart},{c.dEnd},{betaClass bc c.betaUser},{b01 c.bias}"
 
 def callLt (a b : Call) : Bool :=
   a.rowTile < b.rowTile || (a.rowTile == b.rowTile &&
     (a.colTile < b.colTile || (a.colTile == b.colTile && a.dStart < b.dStart)))
 
-def showEv : GemvEv → String
-  | .kernel cs ce ds de bu => s!"k,{cs},{ce},{ds},{de},{b01 bu}"
+def showEv (bc : String) : GemvEv → String
+  | .kernel cs ce ds de bu => s!"k,{cs},{ce},{ds},{de},{betaClass bc bu}"
   | .bias cs ce => s!"b,{cs},{ce}"
 
 def handleSched (ws : List String) : String :=
+  match ws with
+  | [] => "bad-request"
+  | bc :: ws =>
   match parseHeader ws with
   | none => "bad-request"
   | some (kern, p) =>
     match gemmPath consts kern p with
     | .error e => errName e
     | .ok .none => "none"
-    | .ok (.gemv evs) => "gemv " ++ joinWith ";" (evs.map showEv)
+    | .ok (.gemv evs) => "gemv " ++ joinWith ";" (evs.map (showEv bc))
     | .ok (.gemm _ _ _ calls) =>
-      "gemm " ++ joinWith ";" ((calls.toArray.qsort callLt).toList.map showCall)
+      "gemm " ++ joinWith ";" ((calls.toArray.qsort callLt).toList.map (showCall bc))
 
 def matFn (a : Array Int) (cols : Nat) : Nat → Nat → Int := fun r c => a.getD (r * cols + c) 0
 
